@@ -9,7 +9,7 @@ for l in open('/verif/properties.jsonl'):
 wt = "/tmp/seedwt-%s" % pid
 print(f"""You are helping to evaluate a verification effort on the Go repository bufbuild/protocompile (a pure-Go Protocol Buffers compiler). The sandbox is OFFLINE. Work ONLY inside your own scratch git worktree at {wt} (create it with: git -C /repo worktree add --detach {wt} HEAD). Do NOT read, list or use anything under /verif, and do not modify /repo itself. Never use `git stash` (it is shared across worktrees and other people are working in sibling worktrees); to take a change off and on use `git diff > x.diff; git checkout .; git apply x.diff`. Never `pkill` by a generic name.
 
-Go usage: run go from the worktree root as `env -u GOSUMDB -u GOTOOLCHAIN GOFLAGS= GOPROXY=off go test ./...` (go.work workspace; toolchain auto-selected; -race works). Some packages (parser, linker, experimental/benchmark) have tests that FAIL offline even on the unchanged tree because they need the `protoc` binary; judge "passes the existing tests" per test: every test that passes on the unchanged tree must still pass with your change (compare `go test -json` pass lists before/after for the packages you touch and their dependents; the whole suite takes about 2 minutes). Calls named vTrace/vGate/verifhook in the source are inert instrumentation (build tag `verif`); ignore them and do not rely on them.
+Go usage: run go from the worktree root as `env -u GOSUMDB -u GOTOOLCHAIN GOFLAGS= GOPROXY=off go test ./...` (go.work workspace; toolchain auto-selected; -race works). Some packages (parser, linker, experimental/benchmark) have tests that FAIL offline even on the unchanged tree because they need the `protoc` binary; judge "passes the existing tests" per test: every test that passes on the unchanged tree must still pass with your change (compare `go test -json` pass lists before/after for the packages you touch and their dependents; the whole suite takes about 2 minutes on an idle machine, but this machine is heavily shared: to save CPU compare the pass lists of the packages you touch and the packages that depend on them, and run the whole workspace at most once per change at the end). Calls named vTrace/vGate/verifhook in the source are inert instrumentation (build tag `verif`); ignore them and do not rely on them.
 
 The semantic property under study:
   Title: {p['title']}
